@@ -5,7 +5,7 @@ From TS Require Import Model.Str Model.Outcome Model.Unicode Model.Syntax Model.
                        Model.Lang.Scala Model.Lang.Go Model.Lang.Python.
 From TS Require Import Spec.Serde Spec.TargetOsRule Spec.C03Spec.
 From TS Require Proofs.FrontItems Proofs.C03 Proofs.C03_TS Proofs.C03_Kotlin Proofs.C03_Swift Proofs.C03_Scala Proofs.C03_Go
-                Proofs.C03_Python Proofs.C03_Witness.
+                Proofs.C03_Python Proofs.C03_Witness Proofs.C03Src.
 Import ListNotations.
 
 (* the struct / enum / type / const item handed to the matching parse_* function *)
@@ -102,6 +102,24 @@ Theorem C03_parsed_in_dom : forall (uc : unicode) (tstr : str -> option ty) (T :
   parse_leaf uc tstr T x = Ok it -> dom_C03_item it = true.
 Proof. exact Proofs.C03.parsed_in_dom. Qed.
 Print Assumptions C03_parsed_in_dom.
+
+(* C03_src_item.  The expectation the check computes from the SOURCE of an annotated item - with serde's
+   own reading of skip / rename / rename_all (Spec/Serde.v), for conventional identifiers (dom_C03_src) - is
+   the expectation the back-end theorems below are stated with, computed on the IR item it parses to: the
+   same definitions, the same member keys and variant wire names, in the same order, for every language. *)
+Theorem C03_src_item : forall (uc : unicode), unicode_ok uc -> forall (tstr : str -> option ty) (T : list str) (L : lang) (x : item) (it : ritem),
+  dom_C03_src T x = true -> parse_leaf uc tstr T x = Ok it ->
+  c03_expected_sigs L it = c03_src_expected_sigs uc T L x.
+Proof. exact Proofs.C03Src.src_item. Qed.
+Print Assumptions C03_src_item.
+
+(* ... and for a whole file, over the expected items in source order *)
+Theorem C03_src_file : forall (uc : unicode), unicode_ok uc -> forall (tstr : str -> option ty) (T : list str) (L : lang) (f : file) (its : list ritem),
+  forallb (dom_C03_src T) (expected_leaves T f) = true ->
+  Forall2 (fun x it => parse_leaf uc tstr T x = Ok it) (expected_leaves T f) its ->
+  c03_src_file_expected uc T L f = flat_map (c03_expected_sigs L) its.
+Proof. exact Proofs.C03Src.src_file. Qed.
+Print Assumptions C03_src_file.
 
 (* C03_back_TypeScript.  Every IR item yields exactly one TypeScript definition, of the item's kind, listing
    exactly the item's fields / variants in order (the fields of a struct variant inline, in order). *)
